@@ -16,10 +16,6 @@ Fixpoint no_obj (v : json) : bool :=
   | _ => true
   end.
 
-Definition k_forgiving : str := S"forgiving".
-Definition k_self : str := S"self".
-Definition reserved (k : str) : bool := str_eqb k k_forgiving || str_eqb k k_self.
-
 Section Wf.
   Variable V : str -> json -> bool.
 
@@ -27,12 +23,12 @@ Section Wf.
   Definition elem_ok (c : jclass) (k : str) (v : json) : bool :=
     is_none (check_value c v) && (negb (jc_validated c) || V k v).
 
-  (* class descriptor sanity (holds for every regenerated class, by computation): distinct, well-formed,
-     unreserved field names; every default is a dict-free JSON scalar and is either removed by the
+  (* class descriptor sanity (holds for every regenerated class, by computation): distinct, well-formed
+     field names; every default is a dict-free JSON scalar and is either removed by the
      encoder or accepted back by the decoder *)
   Definition cls_ok (c : jclass) : bool :=
     nodup_keys (map fst (jc_fields c))
-    && forallb (fun kv => str_ok (fst kv) && negb (reserved (fst kv)) && jwfb (snd kv) && no_obj (snd kv)
+    && forallb (fun kv => str_ok (fst kv) && jwfb (snd kv) && no_obj (snd kv)
                           && (dropped (jc_json_drop c) (snd kv) || elem_ok c (fst kv) (snd kv)))
                (jc_fields c).
 
@@ -65,21 +61,20 @@ Definition nothing_kept (c : jclass) (o : obj) : bool :=
 (* Tags: every tag passes the pattern *)
 Definition tags_wf (VT : str -> bool) (t : list str) : bool := forallb (fun s => VT s && str_ok s) t.
 
-(* PathInfo / ERO as built by the constructor and set(): the type is Path or Graph, a Path-typed value
-   carries a Path object, a Graph-typed value a graph id (string) or nothing *)
+(* PathInfo / ERO as built by the constructor and set(): the type is Path or Graph; a Path-typed value
+   carries a Path object or nothing (set() not called yet), a Graph-typed value a graph id (string) or nothing *)
 Definition payload_wf (p : payload) : bool :=
   match p with PLRaw j => jwfb j | PLPath a z => jwfb a && jwfb z end.
 Definition pinfo_wf (ero : bool) (p : pinfo) : bool :=
   payload_wf (pi_payload p)
   && match pi_type p, pi_payload p with
-     | Some PTPath, PLPath _ _ => true
+     | Some PTPath, PLPath _ _ | Some PTPath, PLRaw JNull => true
      | Some PTGraph, PLRaw (JStr _) | Some PTGraph, PLRaw JNull => true
      | _, _ => false
      end
   && (if ero then negb (is_none (pi_strict p)) else is_none (pi_strict p)).
-(* "nothing set": a Path-typed PathInfo()/ERO() on which set() was never called *)
-Definition pinfo_unset (p : pinfo) : bool :=
-  match pi_type p, pi_payload p with Some PTPath, PLRaw JNull => true | _, _ => false end.
+(* "nothing set": set() was never called *)
+Definition pinfo_nothing (p : pinfo) : bool := payload_unset (pi_payload p).
 
 (* MaintenanceInfo: node names are well-formed distinct strings, datetimes are non-empty texts that
    fromisoformat accepts *)
